@@ -56,7 +56,7 @@ func TestMain(m *testing.M) {
 		"Required/ReadOnly/RequiredString/RequiredNumber: the value is zero, nil-like, an empty non-nil container, a pointer to a zero value, a negative zero or NaN; "+
 		"FormatOf: unknown format name, nil registry, or a name that the registry normalises; distinct by content hash of the case",
 		"the helpers' path and in arguments only label the error; they are drawn from a small set and only the nil-ness of the result is judged, plus equality of message and code between two identical calls",
-		"UniqueItems on slices mixing numeric carriers, and comparisons that differ only in Go type below the top level, nil-versus-empty containers, untyped-versus-typed nil, string-versus-named-string, NaN and non-nil funcs are undetermined by the statement: executed, not judged, counted under excluded",
+		"comparisons that differ only in Go type below the top level, nil-versus-empty containers, untyped-versus-typed nil, string-versus-named-string, NaN and non-nil funcs are undetermined by the statement: executed, not judged, counted under excluded",
 		"a non-slice enum argument and a Go array passed to UniqueItems are outside the domain (counted under excluded); a non-slice non-array UniqueItems argument has no items and must be accepted",
 		"negative zero is excluded from the zero-value helpers (Required, ReadOnly, RequiredNumber): Go's == calls it zero, its bit pattern is not the zero value",
 		"FormatOf 'follows the registry': for nil and strfmt.Default the expected verdict is strfmt.Default.ContainsName/Validates called directly; the custom registry is a test double with exact-name lookup and four deterministic validators",
